@@ -131,9 +131,11 @@ fn render(ts: &[Tk], style: usize, r: &mut Rng) -> String {
             Tk::Name(n) => n.clone(),
         };
         // separator before this token
+        // a variable name must be separated from a following name, and from a following binder written with the
+        // glyph λ (a letter, it would continue the name); a backslash cannot be part of an identifier and ends it
         let need = i > 0
             && matches!(ts[i - 1], Tk::Name(_))
-            && matches!(t, Tk::Name(_) | Tk::Lam(Some(_)));
+            && (matches!(t, Tk::Name(_)) || (matches!(t, Tk::Lam(Some(_))) && style % 2 == 0));
         let sep = match style {
             0 | 1 => if need { " " } else { "" }.to_string(),
             2 | 3 => " ".to_string(),
